@@ -4,6 +4,7 @@
 
 mod failover;
 mod fake;
+mod proofchain;
 mod txclient;
 
 use h_common::{tool_error, Args};
@@ -16,6 +17,7 @@ fn main() {
     match (mode.as_str(), model.as_str()) {
         ("replay", "failover") => failover::replay(&args),
         ("record", "failover") => failover::record(&args),
+        ("replay", "proofchain") => proofchain::replay(&args),
         ("replay", "txclient") => txclient::replay(&args),
         ("record", "txclient") => txclient::record(&args),
         _ => tool_error(&format!("unknown mode/model {mode}/{model}")),
